@@ -70,9 +70,6 @@ func (p *process) Invoke(msgs []Envelope) {
 		// If we recovered, we buffer up all the messages that we could not process
 		// so we can retry them on the next restart.
 		if v := recover(); v != nil {
-			p.context.message = Stopped{}
-			applyMiddleware(p.context.receiver.Receive, p.Opts.Middleware...)(p.context)
-
 			p.mbuffer = make([]Envelope, nmsg-nproc)
 			for i := 0; i < nmsg-nproc; i++ {
 				p.mbuffer[i] = msgs[i+nproc]
@@ -121,8 +118,6 @@ func (p *process) Start() {
 	p.context.receiver = recv
 	defer func() {
 		if v := recover(); v != nil {
-			p.context.message = Stopped{}
-			applyMiddleware(p.context.receiver.Receive, p.Opts.Middleware...)(p.context)
 			p.tryRestart(v)
 		}
 	}()
@@ -149,6 +144,7 @@ func (p *process) tryRestart(v any) {
 	// back up. NOTE: not sure if that is the best option. What if that
 	// node never comes back up again?
 	if msg, ok := v.(*InternalError); ok {
+		p.stopReceiver()
 		slog.Error(msg.From, "err", msg.Err)
 		time.Sleep(p.Opts.RestartDelay)
 		p.Start()
@@ -166,6 +162,7 @@ func (p *process) tryRestart(v any) {
 		return
 	}
 
+	p.stopReceiver()
 	p.restarts++
 	// Restart the process after its restartDelay
 	p.context.engine.BroadcastEvent(ActorRestartedEvent{
@@ -177,6 +174,13 @@ func (p *process) tryRestart(v any) {
 	})
 	time.Sleep(p.Opts.RestartDelay)
 	p.Start()
+}
+
+// stopReceiver tells the crashed receiver that it is stopped before it gets
+// replaced. When the max restarts are exceeded cleanup does that instead.
+func (p *process) stopReceiver() {
+	p.context.message = Stopped{}
+	applyMiddleware(p.context.receiver.Receive, p.Opts.Middleware...)(p.context)
 }
 
 func (p *process) cleanup(cancel context.CancelFunc) {
